@@ -120,6 +120,10 @@ def sweep_contexts():
         ("if-in-for-in-lambda", lambda L: [["lam", 2, [["for", None, [["if", [[L], [L]]]]]]]]),
         ("list-in-lambda", lambda L: [["lam", None, [["list", [[L]]]]]]),
         ("while-in-def", lambda L: [["def", "g", [], [["while", [L], [L]]]]]),
+        ("depth-4", lambda L: [["lam", None, [["for", None, [["if", [[["while", [E(":")], [L]]]]]]]]]]),
+        ("list-item-depth-3", lambda L: [["map", [["for", "i", [["if", [[E("+")], [["list", [[L], [L]]]]]]]]]]]),
+        ("def-in-while-in-if", lambda L: [["if", [[["while", None, [["def", "h", ["1"], [L]]]]]]]]),
+        ("operand-of-operand", lambda L: [["for", None, [["mod", "₌", [["mod", "v", [L]], ["lam", None, [L]]]]]]]),
     ]
 
 
@@ -128,6 +132,10 @@ def _sweep_items():
     for m, ar in progs.MOD_ARITY.items():
         items.append(["mod", m, [E("+")] * ar])
         items.append(["mod", m, [["lam", None, [E("d")]]] * ar])
+    one = [E("+")]
+    items += [["if", [one]], ["if", [one, one]], ["if", [one, one, one, one]], ["for", None, one], ["for", "k", one], ["while", None, one],
+              ["while", one, one], ["lam", None, one], ["lam", 2, one], ["map", one], ["flt", one], ["srt", one], ["list", [one, []]],
+              ["list", [[]]], ["def", "q", ["1", "a", "*"], one], ["if", [[]]], ["for", None, []], ["lam", 0, []], ["list", [[["brk"]], [["rec"]]]]]
     items += [["num", t] for t in progs.NUM_FORMS]
     items += [["str", "a\\"], ["two", "a\\"], ["two", '"\\'], ["chr", "\\"], ["chr", "'"], ["chr", "\n"], ["str", '"'],
               ["str", "\n"], ["cstr", "ab"], ["cnum", "ab"], ["cpn", "a"], ["get", ""], ["set", ""], ["get", "_a"],
@@ -262,7 +270,7 @@ def run(rec, tier, seed):
     quick = tier == "quick"
     ns = campaign.NCPU
     campaign.parallel(rec, _shard_sweep, [(s, ns * 2) for s in range(ns * 2)])
-    rec.exhaustive.append("every element key / modifier / X / x in each of 20 context templates under 4 settings")
+    rec.exhaustive.append("every element key / modifier / X / x in each of 24 context templates under 4 settings")
     N = 4 if quick else 6
     jobs = []
     for L in range(0, N + 1):
